@@ -265,7 +265,25 @@ class LoopRig(srvkit.Rig):
             def sleep(self, s):
                 pass
         svr_threads.time = NoSleep()
+        registered = [self.Target] + [v for v in self.daemon.objectsById.values() if isinstance(v, type)] \
+            + [type(v) for v in self.daemon.objectsById.values()]
         try:
             super().close()
         finally:
             svr_threads.time = real_time
+            forget_types(registered)
+
+
+def forget_types(classes):
+    """Daemon.register() adds a per-type serializer hook for every registered class and never removes it; serpent walks
+    that registry on every dumps, so thousands of short-lived daemons would make each run slower than the one before"""
+    import serpent
+    from Pyro5 import serializers, server
+    for c in set(classes):
+        if c in (server.DaemonObject, type, object):
+            continue
+        serpent.unregister_class(c)
+        for ser in (serializers.JsonSerializer, serializers.MsgpackSerializer):
+            for name, val in vars(ser).items():
+                if name.endswith("__type_replacements") and isinstance(val, dict):
+                    val.pop(c, None)
